@@ -9,7 +9,8 @@ import traceback
 from . import facts, inter, paths, sym
 
 VERIF = facts.VERIF
-EVIDENCE_DIR = os.path.join(VERIF, "evidence")
+# /verif/evidence describes /repo only; runs against a scratch tree (MPCHECK_REPO) write under .cache
+EVIDENCE_DIR = os.path.join(VERIF, "evidence") if os.path.realpath(facts.REPO) == "/repo" else os.path.join(VERIF, ".cache", "evidence-scratch")
 VIOL_DIR = os.path.join(EVIDENCE_DIR, "violations")
 KNOWN = os.path.join(VERIF, "known_findings.json")
 
